@@ -229,6 +229,35 @@ def derived_equal(o1, o2):
                 sx, sy = x.value * S.ffactor(kind, x.unit), y.value * S.ffactor(kind, y.unit)
                 if not O.close(sx, sy, 1e-300, 1e-7):
                     return f'{e1.name} {key} sample {j}: {sx!r} vs {sy!r} (SI)'
+    # the exported files (default units): the same numbers whatever units the inputs were written in
+    if len(pt1.time) >= 1 and len(pt1.time) == len(pt2.time):
+        import os
+        import tempfile
+        import pandas as pd
+        with tempfile.TemporaryDirectory() as tmp:
+            errs = []
+            for j_, pt in enumerate((pt1, pt2)):
+                try:
+                    pt.export_time_variables(folder_path=os.path.join(tmp, str(j_)))
+                    errs.append(None)
+                except Exception as ex:  # noqa
+                    errs.append(type(ex).__name__)
+            if errs[0] != errs[1]:
+                return f'export: {errs[0] or "succeeds"} with the inputs as given, {errs[1] or "succeeds"} after re-expressing them'
+            if errs[0] is None:
+                for e1 in els1:
+                    fa, fb = os.path.join(tmp, '0', e1.name + '.csv'), os.path.join(tmp, '1', e1.name + '.csv')
+                    if not (os.path.exists(fa) and os.path.exists(fb)):
+                        continue
+                    da, db = pd.read_csv(fa, float_precision='round_trip'), pd.read_csv(fb, float_precision='round_trip')
+                    if list(da.columns) != list(db.columns) or len(da) != len(db):
+                        return f'export of {e1.name}: different columns or row counts'
+                    for c_ in da.columns:
+                        sc_ = max(float(da[c_].abs().max()), float(db[c_].abs().max()), 1e-300)
+                        for i_ in range(len(da)):
+                            x, y = float(da[c_][i_]), float(db[c_][i_])
+                            if (x != x) != (y != y) or (x == x and not O.close(x, y, 1e-9 * sc_, 1e-6)):
+                                return f'export of {e1.name}, column {c_!r}, row {i_}: {x!r} vs {y!r}'
     if len(pt1.time) >= 2 and len(pt1.time) == len(pt2.time):
         j = len(pt1.time) // 2
         t1 = pt1.time[j - 1] + (pt1.time[j] - pt1.time[j - 1]) * 0.5 if j >= 1 else pt1.time[0]
